@@ -113,7 +113,13 @@ def gen_doc(rng, with_use=True, root_opacity=False):
     def paint_attrs(level):
         a, style = {}, []
         def put(k, v):
-            if rng.random() < 0.35: style.append(f'{k}:{v}')
+            u = rng.random()
+            if u < 0.3: style.append(f'{k}:{v}')
+            elif u < 0.42:
+                # both ways with different values: the style declaration wins (and the last duplicate declaration)
+                other = {'fill': 'purple', 'fill-opacity': '0.75', 'opacity': '0.75', 'display': 'inline', 'fill-rule': 'nonzero'}[k]
+                a[k] = other; style.append(f'{k}:{v}')
+                if rng.random() < 0.3: style.insert(0, f'{k}:{other}')
             else: a[k] = v
         if rng.random() < 0.5: put('fill', rng.choice(['red', 'blue', 'green', 'none', 'yellow']))
         if rng.random() < 0.25: put('fill-opacity', rng.choice(OP[:5]))
